@@ -21,6 +21,7 @@ func init() {
 			"(keyBytesToHex stores only masked nibbles/the terminator, all < nrOfChildren; only hash-chained, i.e. genuine, nodes are decoded). " +
 			"(S2, soundness by sibling agreement over the node interface) for every node type, each key-consuming guard that dominates the key step of the lookup walk (getNext / tryGet) also dominates " +
 			"the key step of the verification walk (getNextHashAndKey): a guard missing there lets a proof for K verify for an absent K'. " +
+			"VerifyProof answers false without an error only for a nil or empty entry, a hash mismatch or the end of the proof (completeness: no other relation is demanded of genuine proofs). " +
 			"Not decided (value-level): completeness (every present key's proof verifies), nibble arithmetic.",
 		Assume: []string{"the hash function is collision/second-preimage resistant, so only encodings of genuine trie nodes pass the hash comparison in VerifyProof"},
 		Run:    runC04,
